@@ -95,6 +95,11 @@ impl Dictionary {
         )
     }
 
+    /// Number of unk.def entries of a category.
+    pub fn verif_unk_count(&self, cate_id: u32) -> usize {
+        self.unk_handler().verif_count(cate_id)
+    }
+
     /// Category names indexed by category id.
     pub fn verif_categories(&self) -> Vec<String> {
         self.char_prop().verif_category_names().to_vec()
